@@ -309,6 +309,20 @@ def run(ctx):
             break
         got = ar_.get(v_)
         ctx.inst("C14.R8", "arity[%s]" % v_, None if got is None else tuple(got) == want, "arity row: %s; documented: %s" % (got, want), None)
+    # ---------------- R9 equality used by unique / includes is the structural one; a record literal's later entries win
+    ctx.rule("C14.R9", "unique and includes decide with Value::equals, which compares lists element by element and records key by key over both sizes (a one-sided walk makes a record equal to every record that extends it); and in a record literal every entry - written or spread - is stored with an unconditional insert, so `{...a, ...b}` takes b's value on a shared key", floor=3)
+    from rules import c12 as c12_
+    c12_.structural_equality(ctx, "C14.R9", core)
+    hev9 = core.hir_fn("blots_core::expressions::evaluate_ast")
+    mev9 = H.main_match(hev9["body"], "ast::Expr")
+    rec_arm = next((a_ for a_ in (mev9["arms"] if mev9 else []) if any(H.last(v_) == "Record" for v_ in H.pat_variants(a_["pat"]))), None)
+    if rec_arm is None:
+        ctx.inst("C14.R9", "Record#later-entry-wins", None, "no Record arm found in the evaluator", None)
+    else:
+        writes = [x for x in H.walk(rec_arm["body"]) if H.kind(x) == "MethodCall" and "IndexMap" in (x.get("recv_ty") or "") and x["name"] in ("insert", "entry", "or_insert", "or_insert_with", "insert_before", "shift_insert", "extend", "contains_key", "get")]
+        first_wins = sorted({x["name"] for x in writes if x["name"] in ("entry", "contains_key", "get")} | {x["name"] for x in H.walk(rec_arm["body"]) if H.kind(x) == "MethodCall" and x["name"] in ("or_insert", "or_insert_with", "or_default")})
+        ins = [x for x in writes if x["name"] in ("insert", "extend")]
+        ctx.inst("C14.R9", "Record#later-entry-wins", False if first_wins else (True if ins else None), "writes into the record under construction: %d unconditional insert(s)%s" % (len(ins), "" if not first_wins else "; %s keeps an earlier entry's value where a later one has the same key" % first_wins), H.loc(rec_arm["body"]))
     # key functions: called with the element alone, and as themselves
     ctx.rule("C14.R7", "sort_by, group_by and count_by call their key function with the element alone (no index), and hand the function value itself as its self reference at every call (both key evaluations of a sort_by comparison): the key of x is f(x), whatever f's arity and whether or not f is recursive", floor=4)
     from rules import c13 as c13_
